@@ -45,6 +45,7 @@ type jStakeOp struct {
 	PowerPre  math.Int
 	PowerPost math.Int // total power if the operation is applied
 	MaxLock   math.Int // largest lock over active vaults at that moment
+	FeedsLock math.Int // the lock the voter's standing vote holds under the feeds vault at that moment (zero if none)
 	Possible  bool     // the withdrawal is possible at all (amount available)
 	Why       string
 }
@@ -190,7 +191,10 @@ func (s *StakeShadow) Advance(e *Env, blk *world.BlockRecord) {
 		switch meta := tx.Intent.Meta.(type) {
 		case *stakeOpMeta:
 			addr := meta.Addr.Addr.String()
-			j := jStakeOp{Tx: tx, Meta: meta, PowerPre: s.TotalPower(addr), MaxLock: s.MaxActiveLock(addr), Possible: true}
+			j := jStakeOp{Tx: tx, Meta: meta, PowerPre: s.TotalPower(addr), MaxLock: s.MaxActiveLock(addr), FeedsLock: math.ZeroInt(), Possible: true}
+			if l, ok := s.Locks[addr][feedstypes.ModuleName]; ok && s.Vaults[feedstypes.ModuleName] {
+				j.FeedsLock = l
+			}
 			post := j.PowerPre
 			if s.Deleg[addr] == nil {
 				s.Deleg[addr] = map[string]math.Int{}
